@@ -1,3 +1,4 @@
 import CanVerif.Props.C01
 import CanVerif.Props.C02
 import CanVerif.Props.C17
+import CanVerif.Props.C08
